@@ -16,41 +16,47 @@ def main():
     from mcx.props import c10
     import elftools.elf.elffile     # noqa: F401 - importing creates no state beyond module initialisation; nothing is called before the fork
     import elftools.dwarf.dwarfinfo  # noqa: F401
-    out = []
-    for req in reqs:
-        r, wfd = os.pipe()
-        pid = os.fork()
-        if pid == 0:
+    out = [None] * len(reqs)
+    BATCH = 16
+    for b0 in range(0, len(reqs), BATCH):
+        running = []
+        for qi in range(b0, min(b0 + BATCH, len(reqs))):
+            req = reqs[qi]
+            r, wfd = os.pipe()
+            pid = os.fork()
+            if pid == 0:
+                os.close(r)
+                signal.alarm(15)        # a query on a freshly opened object that runs longer is reported as 'hang-or-crash' (the default action of SIGALRM ends the child)
+                try:
+                    c10._DATA['current'] = data
+                    c10._FOREIGN['data'] = foreign
+                    if req[0] == 'event':
+                        w = c10.World(data)
+                        try:
+                            res = repr(c10.apply(w, req[1]))
+                        except Exception as e:      # noqa: BLE001
+                            res = repr(('raises', type(e).__name__))
+                    else:
+                        w = c10.World(data)
+                        try:
+                            res = [repr(('item', x)) for x in c10.ITER_KINDS[req[1]](w, req[2])]
+                        except Exception as e:      # noqa: BLE001
+                            res = [repr(('raises', type(e).__name__))]
+                    os.write(wfd, pickle.dumps(res))
+                finally:
+                    os._exit(0)
+            os.close(wfd)
+            running.append((qi, pid, r))
+        for qi, pid, r in running:
+            buf = b''
+            while True:
+                chunk = os.read(r, 1 << 16)
+                if not chunk:
+                    break
+                buf += chunk
             os.close(r)
-            signal.alarm(30)
-            try:
-                c10._DATA['current'] = data
-                c10._FOREIGN['data'] = foreign
-                if req[0] == 'event':
-                    w = c10.World(data)
-                    try:
-                        res = repr(c10.apply(w, req[1]))
-                    except Exception as e:      # noqa: BLE001
-                        res = repr(('raises', type(e).__name__))
-                else:
-                    w = c10.World(data)
-                    try:
-                        res = [repr(('item', x)) for x in c10.ITER_KINDS[req[1]](w, req[2])]
-                    except Exception as e:      # noqa: BLE001
-                        res = [repr(('raises', type(e).__name__))]
-                os.write(wfd, pickle.dumps(res))
-            finally:
-                os._exit(0)
-        os.close(wfd)
-        buf = b''
-        while True:
-            chunk = os.read(r, 1 << 16)
-            if not chunk:
-                break
-            buf += chunk
-        os.close(r)
-        os.waitpid(pid, 0)
-        out.append(pickle.loads(buf) if buf else repr(('hang-or-crash',)))
+            os.waitpid(pid, 0)
+            out[qi] = pickle.loads(buf) if buf else repr(('hang-or-crash',))
     sys.stdout.buffer.write(pickle.dumps(out))
 
 
